@@ -386,7 +386,7 @@ _tg, _te = _thr.make(T_CALLS, ['geodepy/transform.py', 'geodepy/constants.py'], 
 SUBCHECKS = [
     Sub('formula', gen_formula, ev_formula, chunk=4, floor=1000, guard=True, envs=3),
     Sub('covariance', gen_cov, ev_cov, chunk=2, floor=200, guard=True, envs=2),
-    Sub('threads', _tg, _te, chunk=1, floor=3, poison=False, fresh=True),
+    Sub('threads', _tg, _te, chunk=1, floor=3, poison=False, fresh=True, timeout=3600),
 ]
 
 
